@@ -63,6 +63,19 @@ def scan_header(h):
                         alarms.append("%s: block %s jumps to missing label %s" % (name, lab, tgt))
         if "b0" not in labels:
             alarms.append("%s: no entry label" % name)
+        elif name.startswith("eval"):
+            # a value-returning body returns a value on every reachable path
+            seen, todo = set(), ["b0"]
+            while todo:
+                x = todo.pop()
+                if x in seen or x not in labels:
+                    continue
+                seen.add(x)
+                for st in labels[x]:
+                    todo += re.findall(r"\bgoto (b\d+);", st)
+            for lab in sorted(seen):
+                if any(st == "return;" for st in labels[lab]):
+                    alarms.append("%s: value-returning function executes a bare 'return;' in reachable block %s" % (name, lab))
     return alarms, nfun, nblk
 
 
@@ -73,7 +86,7 @@ def ir_corpus(rng, n_docs):
             docs.append(("void", cbdoc.CbDoc(rng, n_handlers=10, max_depth=rng.choice((2, 3)))))
         else:
             docs.append(("value", exprdoc.ExprDoc(rng, n_targets=3, max_depth=rng.choice((2, 3)), kinds=CF_KINDS,
-                                                  void_path_hazard=(i % 4 == 1))))
+                                                  void_path_hazard=(i % 4 == 1), gadget_members=(i % 2 == 1))))
     return docs
 
 
